@@ -182,6 +182,16 @@ func c17Run(w *W) {
 	}
 	w.Sleep(2 * time.Millisecond)
 	w.Settle()
+	var ownBodies, ownCopies [][]byte
+	ownIntact := func() bool {
+		for k := range ownBodies {
+			if !bytes.Equal(ownBodies[k][:len(ownCopies[k])], ownCopies[k]) {
+				w.Failf("C17/application-buffer-changed", "a slice the application had put into a message's Body (and kept, reading only) has changed after the message was sent: %q, was %q", clip(ownBodies[k][:len(ownCopies[k])]), clip(ownCopies[k]))
+				return false
+			}
+		}
+		return true
+	}
 	resetAt := -1
 	if tran != "inproc" && nrecv >= 2 && w.Choose(simrt.SShape, 3) == 0 {
 		resetAt = w.Choose(simrt.SShape, nmsg)
@@ -211,6 +221,18 @@ func c17Run(w *W) {
 		body := patBody(fmt.Sprintf("m%d", i), sz)
 		m := mangos.NewMessage(len(body))
 		m.Body = append(m.Body, body...)
+		if len(body) > 64 && w.Choose(simrt.SProg, 4) == 0 {
+			// the application puts a slice of its own into the message (Body is
+			// a public field) and keeps it, read-only: the library sends it and
+			// never writes to it or keeps it, whatever it does with the message
+			m.Free()
+			own := append(make([]byte, 0, len(body)+32), body...)
+			m = mangos.NewMessage(0)
+			m.Body = own
+			ownBodies = append(ownBodies, own)
+			ownCopies = append(ownCopies, append([]byte(nil), own...))
+			w.Probe("application-owned-body-slice")
+		}
 		if rawSender {
 			m.Header = append(m.Header, rawHeader(skind, 1, uint32(i+1))...)
 		}
@@ -280,7 +302,7 @@ func c17Run(w *W) {
 			x.Body = append(x.Body, patBody("scratch", n)...)
 			x.Free()
 		}
-		if !ret.check() {
+		if !ret.check() || !ownIntact() {
 			return
 		}
 	}
